@@ -238,6 +238,8 @@ def header_extent(bs, sz):
 
 def ignored_extension(bs):
     """byte range of the format-chunk extension that the decoder skips (normalised to zero on re-encoding)"""
+    if len(bs) < 38:                  # a header cut short that a (broken) decoder nevertheless accepted: nothing to normalise
+        return (38, 38)
     fcs = u(bs, 16, 4)
     if fcs >= 18 and u(bs, 36, 2) != 22:
         return (38, 38 + fcs - 18)
